@@ -323,6 +323,11 @@ def run(chk):
         nts += len(want & stored)
     chk.rule("R18-typespec", "A2ML compound type parsers that build exactly their own A2mlTypeSpec variant", nts, floor=4)
     # ------------------------------------------------------------------ R18-aml
+    # where the in-file A2ML block ends is decided by tokenizer::handle_a2ml (comments and strings inside the block are skipped so
+    # that an `/end` inside them does not end it): its scan steps with their conditions
+    from . import c05
+    diag.compare(chk, "R18-block", "cursor", c05.cursor_table(prog), "scan-position steps of tokenizer::handle_a2ml (extent of the in-file A2ML block), compared with the reviewed table", floor=5,
+                 fn_filter=lambda fn: fn == "tokenizer::handle_a2ml")
     diag.compare(chk, "R18-aml", "a2ml", a2ml_table(prog), "decisions of the A2ML scanner and type parser (sub-parser calls with their literal flags, A2mlTypeSpec constructions, scan position / include state steps) with their control predicates, compared with the reviewed table", floor=100)
     # ------------------------------------------------------------------ R18-maxlen
     from . import c06
